@@ -184,7 +184,8 @@ class AWorld:
     impl = 'async'
 
     def __init__(self, config=None, coroutine_handlers=True, app_kwargs=None, raise_after_close=True,
-                 legacy_disconnect=False, clock=None, loop=None, handler_delay=None):
+                 legacy_disconnect=False, clock=None, loop=None, handler_delay=None,
+                 preempt=False):        # (preempt: threaded world only)
         import engineio
         self.clock = clock or vclock.reset()
         vclock.patch_engineio_time()
